@@ -331,6 +331,8 @@ func l3DecoderCase(c *Ctx, id string, st *trie.SlimTrie, tc *TrieCase, spec *Enc
 		})
 		if p != "" {
 			s = "PANIC"
+			// totality of the lookups (C10): no query may panic on a built or reloaded trie
+			c.Or.Violate("L3:query-panic", fmt.Sprintf("GetID/Get/searchID/Search/RangeGet(%s) panicked: %s", hxs(q), p), l3ReplayOf(tc, "query "+hxs(q), "PANIC", "an answer"))
 		}
 		fmt.Fprintf(iw, "q %s G %s\n", hxs(q), s)
 		c.Or.Count("message-level GetID/Get queries")
@@ -790,6 +792,17 @@ func init() {
 				break
 			}
 			add(l3ManyBitmaps(r.Fork(), fmt.Sprintf("mb%d", i), na[0], na[1]))
+		}
+		// directed: the label bitmaps fill their last word and end with a set bit
+		for i := 0; i < c.N(10, 60); i++ {
+			rr := r.Fork()
+			if d := directedInnersFull(rr, fmt.Sprintf("if%d", i), 600); d != nil {
+				vk := []int{VNil, VDistinct}[i%2]
+				d.IDs, d.VKind = genValueIDs(rr, len(d.Keys), vk), vkindNames[vk]
+				d.Enc = []string{"I32", "S16", "U64"}[i%3]
+				c.Or.Count("shape:inners-end-on-set-bit")
+				add(d)
+			}
 		}
 		// directed search: short nodes at word boundaries
 		want := map[string]int{"straddle": c.N(6, 30), "endsword": c.N(6, 30), "endsbitmap": c.N(6, 30)}
